@@ -518,6 +518,17 @@ def install(models, front=True):
             raise Panic(f"index out of bounds: the len is {hi - lo} but the index is {i}")
         return Ref(base, lo + i)
 
+    @R(r"^<std::ops::Range<usize> as ExactSizeIterator>::len$|^<Range<usize> as ExactSizeIterator>::len$")
+    def _range_len(ex, c, a):
+        r = deref(a[0])
+        lo, hi = r[0], r[1]
+        from .strmodel import LenV, lenv_binop
+        if isinstance(lo, LenV) or isinstance(hi, LenV):
+            d = lenv_binop(ex, "Sub", hi, lo)
+            if d is not None:
+                return d
+        return hi - lo
+
     @R(r"^<Vec<.*> as AsRef<.*>>::as_ref$|^<Vec<.*> as Borrow<.*>>::borrow$|^<Vec<.*> as AsMut<.*>>::as_mut$|^<\[.*\] as AsRef<.*>>::as_ref$")
     def _vec_asref(ex, c, a):
         return a[0]
